@@ -128,6 +128,7 @@ WBegin(w, k, v, st, hh, hdr, sz) ==
     /\ wr[w].pc = "idle" /\ nv <= NVal
     /\ Ready
     /\ (Typ = "cache" => hh = 0 /\ hdr = -1) /\ (Typ = "mem" => hh = 1) /\ (hh = 0 => hdr = -1)
+    /\ (hh = 2 => Thr)
     /\ LET r == [pc |-> IF Typ = "mem" THEN "check" ELSE "has",
                  k |-> k, v |-> v, st |-> st, hh |-> hh, hdr |-> hdr, sz |-> sz] IN
        IF Thr /\ st \notin Relevant
@@ -139,7 +140,7 @@ WBegin(w, k, v, st, hh, hdr, sz) ==
 
 WHas(w) ==
     /\ wr[w].pc = "has"
-    /\ IF HasFresh(wr[w].k) \/ (Thr /\ wr[w].hh = 0)
+    /\ IF HasFresh(wr[w].k) \/ (Thr /\ wr[w].hh # 1)      \* the header is looked up by the exact spelling of the policy
        THEN Ends(wr[w]) /\ wr' = [wr EXCEPT ![w] = Idle]
        ELSE Goes /\ wr' = [wr EXCEPT ![w] = [wr[w] EXCEPT !.pc = "check"]]
     /\ Log([ev |-> "whas", w |-> w])
@@ -196,9 +197,9 @@ Next ==
     \/ \E d \in Steps : Advance(d)
     \/ FireDue
     \/ \E s \in sleepers : (~Sync \/ (AllIdle /\ s \in Imm)) /\ Fire(s)
-    \/ \E w \in Writers, k \in Key, st \in Sts, hh \in {0, 1}, sz \in Szs :
-          \E h \in IF hh = 1 THEN Hdrs ELSE {-1} :
-              WBegin(w, k, nv, st, hh, IF hh = 1 THEN HdrArg(h) ELSE -1, sz)
+    \/ \E w \in Writers, k \in Key, st \in Sts, hh \in IF Thr THEN {0, 1, 2} ELSE {0, 1}, sz \in Szs :
+          \E h \in IF hh >= 1 THEN Hdrs ELSE {-1} :
+              WBegin(w, k, nv, st, hh, IF hh >= 1 THEN HdrArg(h) ELSE -1, sz)
     \/ \E w \in Writers : WHas(w) \/ WCheck(w) \/ WInsert(w)
     \/ \E k \in Key : Req(k)
 
